@@ -163,6 +163,11 @@ def r2(run, db):
                     okd = v[0] == "bin" and v[1] == "Sub" and v[3] == ("c", 1)
                     gt = [x for x in cmp_tests(f) if x["op"] == "Gt" and x["b"] == ("c", 0)]
                     okg = any(x["true_edge"] and f.edge_dominates(x["true_edge"], site) for x in gt)
+                    if not (okd and okg):
+                        # `balance.saturating_sub(1)`: the guarded decrement in one call
+                        rts2 = f.origins(s["rv"]["op"])
+                        if rts2 and all(r["k"] == "call" and r["call"].matches(r"::saturating_sub$") and sym(f, r["call"].args[1]) == ("c", 1) for r in rts2):
+                            okd = okg = True
                     run.check(okd and okg, "balance-store:dec@%s" % f.id.split("::")[-1], "balance := balance - 1 under balance > 0", "balance store %s is neither a capped refill nor a guarded decrement" % show(v), f.where(s.get("l")))
         for site, s in f.aggregates(adt="LeakyBucketRateLimiter"):
             vals = dict(zip(s["rv"]["fields"], s["rv"]["ops"]))
@@ -339,7 +344,11 @@ def r5(run, db):
         for r in idr.origins(c.args[1]):
             if r["k"] == "agg" and r["stmt"]["rv"].get("kind") == "closure" and db.fns.get(r["stmt"]["rv"]["def"]):
                 preds.append(db.fns[r["stmt"]["rv"]["def"]])
-    run.anchor("is_drained predicate closure", len(preds), 1)
+    # (the predicate may also be the function item itself: `.all(WorkerProperties::is_available)`)
+    fn_items = [r for c in al for r in idr.origins(c.args[1]) if r["k"] == "const" and str((r["op"].get("fn") or {}).get("def") or r["op"].get("val") or "").endswith("::is_available")]
+    if fn_items and not preds:
+        run.ok("is_drained|predicate", "the per-worker predicate is the function item is_available itself", idr.where())
+    run.anchor("is_drained predicate closure", len(preds) + len(fn_items), 1)
     for g in preds:
         cs = g.calls()
         av = [c for c in cs if c.callee and c.callee.endswith("::is_available")]
